@@ -148,6 +148,17 @@ impl Prop for C10 {
                 sink(Case::with("unit", format!("round({x} {u}, {n})"), serde_json::json!({"f": "round", "x": x, "u": u, "n": n})));
             }
         }
+        // a conversion inside the argument, and a call as the left side of a conversion: the argument
+        // is evaluated as a unit first (its value taken from the tool's own answer for the cast)
+        for (x, u, v) in [("1234.5", "m", "km"), ("2.567", "km", "m"), ("98.6", "°F", "°C"), ("-40.5", "°C", "°F"), ("90", "km/h", "m/s"), ("7.5", "in", "cm"), ("-3.75", "h", "min")] {
+            for f in ["floor", "ceil", "round"] {
+                sink(Case::with("arg-cast", format!("{f}({x} {u} to {v})"), serde_json::json!({"f": f, "inner": format!("{x} {u} to {v}")})));
+                sink(Case::with("call-cast", format!("{f}({x} {u}) to {v}"), serde_json::json!({"f": f, "x": x, "u": u, "v": v})));
+            }
+            for n in [-1i64, 1, 2] {
+                sink(Case::with("arg-cast", format!("round({x} {u} to {v}, {n})"), serde_json::json!({"f": "round", "n": n, "inner": format!("{x} {u} to {v}")})));
+            }
+        }
         // nested calls: a call as the argument of a call, in the first and in the digits position,
         // and inside a larger argument expression
         for x in ["2.567", "-2.567", "7.5", "-7.5", "1234.5678", "0.05"] {
@@ -209,6 +220,36 @@ impl Prop for C10 {
             Ok(r) => r,
             Err(why) => return fw::fail(format!("results:{}", case.fam), format!("{q}: {why}")),
         };
+        if case.fam == "arg-cast" || case.fam == "call-cast" {
+            let f = case.data["f"].as_str().unwrap();
+            let n = case.data.get("n").and_then(|n| n.as_i64());
+            let apply = |v: &BigRational| match (f, n) {
+                ("floor", _) => BigRational::from_integer(ref_floor(v)),
+                ("ceil", _) => BigRational::from_integer(ref_ceil(v)),
+                (_, None) => BigRational::from_integer(ref_round(v)),
+                (_, Some(n)) => ref_round_digits(v, n),
+            };
+            // arg-cast: f applied to the tool's own answer for the inner cast, unit kept;
+            // call-cast: the tool's own answer for `f(x) u to v` written with the rounded literal
+            let (want, want_unit) = if case.fam == "arg-cast" {
+                match obs::eval_one(env.db(), case.data["inner"].as_str().unwrap()) {
+                    Ok(Res::Ok { value, unit, .. }) => (apply(&value), unit),
+                    other => return Verdict::DontCare(if other.is_ok() { "inner cast refused" } else { "inner cast not a single result" }),
+                }
+            } else {
+                let x = crate::refcalc::ref_decimal(case.data["x"].as_str().unwrap()).unwrap();
+                let r = apply(&x);
+                let lit = if r.is_integer() { r.to_integer().to_string() } else { format!("({} / {})", r.numer(), r.denom()) };
+                match obs::eval_one(env.db(), &format!("{lit} {} to {}", case.data["u"].as_str().unwrap(), case.data["v"].as_str().unwrap())) {
+                    Ok(Res::Ok { value, unit, .. }) => (value, unit),
+                    _ => return Verdict::DontCare("reference cast refused"),
+                }
+            };
+            return match got {
+                Res::Ok { value, unit, .. } if value == want && unit == want_unit => fw::pass(true, fw::hash_str(&want.to_string())),
+                r => fw::fail(format!("{}:{f}", case.fam), format!("{q}: expected {want} in the unit of the cast, got {}", r.short())),
+            };
+        }
         if case.fam == "arity" {
             return match got {
                 Res::Err { .. } => fw::pass(true, fw::hash_str(&got.short())),
